@@ -4,7 +4,7 @@ from collections import defaultdict
 
 from ..check import Result
 from ..core import op_local, op_place, op_const, op_str, place_local, place_projs, proj_fields, value_preserving
-from ..reviewed import REVIEWED
+from ..reviewed import REVIEWED, settle
 
 FIND_FAMILY = re.compile(r"core::str::<impl str>::(find|rfind)$|std::str::<impl str>::(find|rfind)$")
 SUFFIX_FNS = re.compile(r"::<impl str>::(trim_start|trim_start_matches|trim_left|strip_prefix)$")
@@ -581,6 +581,7 @@ def r7_slicing(ctx):
     crate = ctx.bin
     sites = slicing_sites(crate)
     cnt = defaultdict(int)
+    pending = []
     for s in sites:
         f = s.f
         ev = BndEval(crate, f, s.bb)
@@ -607,11 +608,10 @@ def r7_slicing(ctx):
         key = re.sub(r"_\d+", "_", "%s|%s[%s]" % (base, sname, "; ".join("%s=%s" % b for b in bad))) if bad else base
         if not bad:
             r.ok(sample={"site": crate.span_str(s.c["span"]), "string": sname, "proof": descr} if len(r.samples) < 6 else None)
-        elif key in REVIEWED:
-            r.review(key, REVIEWED[key])
         else:
-            r.violate(key, "slice of %s at %s is not a proven char boundary (%s): non-ASCII text can make it panic" % (
-                sname, crate.span_str(s.c["span"]), "; ".join("%s: %s" % b for b in bad)))
+            pending.append((key, "slice of %s at %s is not a proven char boundary (%s): non-ASCII text can make it panic" % (
+                sname, crate.span_str(s.c["span"]), "; ".join("%s: %s" % b for b in bad))))
+    settle(r, pending)
     r.counts["sites"] = len(sites)
     r.floor("str slicing sites", len(sites), 12)
     return r
@@ -639,6 +639,7 @@ def r7_range_order(ctx):
     crate = ctx.bin
     sites = slicing_sites(crate)
     n = 0
+    pending = []
     for s in sites:
         f = s.f
         ev = BndEval(crate, f, s.bb)
@@ -676,11 +677,10 @@ def r7_range_order(ctx):
                         why = "guarded by a dominating comparison of start and end"
         if why:
             r.ok(sample={"site": crate.span_str(s.c["span"]), "string": sname, "start<=end": why})
-        elif key in REVIEWED:
-            r.review(key, REVIEWED[key])
         else:
-            r.violate(key, "range `%s[a..b]` at %s: a <= b is not established (no `a + x` end, no dominating comparison): the slice "
-                           "panics when the start lies behind the end" % (sname, crate.span_str(s.c["span"])))
+            pending.append((key, "range `%s[a..b]` at %s: a <= b is not established (no `a + x` end, no dominating comparison): the slice "
+                                 "panics when the start lies behind the end" % (sname, crate.span_str(s.c["span"]))))
+    settle(r, pending)
     r.floor("two-sided str ranges", n, 2)
     return r
 
@@ -766,6 +766,7 @@ def r7_sub_underflow(ctx):
                       "by reading are in the reviewed table. An underflow panics (debug) or wraps to a huge index (release)")
     crate = ctx.bin
     n = 0
+    pending = []
     for f in crate.real_fns():
         facts = None
         ev = None
@@ -810,10 +811,9 @@ def r7_sub_underflow(ctx):
             key = re.sub(r"_\d+", "_", "R7e|%s|%s - %s" % (fn_short, ev.descr_val(a), ev.descr_val(c)))
             if why:
                 r.ok(sample={"site": crate.span_str(t[7]), "proof": why} if len(r.samples) < 6 else None)
-            elif key in REVIEWED:
-                r.review(key, REVIEWED[key])
             else:
-                r.violate(key, "unsigned subtraction at %s is not proven free of underflow" % crate.span_str(t[7]))
+                pending.append((key, "unsigned subtraction at %s is not proven free of underflow" % crate.span_str(t[7])))
+    settle(r, pending)
     r.counts["unsigned_checked_subtractions"] = n
     r.floor("unsigned checked subtractions", n, 10)
     return r
@@ -933,6 +933,7 @@ def r7_index_bounds(ctx):
                       "site). An index out of bounds panics in every build")
     crate = ctx.bin
     n = 0
+    pending = []
     for f in crate.real_fns():
         facts = None
         for bb, c in f.calls():
@@ -969,10 +970,9 @@ def r7_index_bounds(ctx):
                     why = _range_loop_var(ev, f, bb, idx, coll)
             if why:
                 r.ok(sample={"site": crate.span_str(c["span"]), "index": "%s[%s]" % (cname, idescr), "proof": why} if len(r.samples) < 6 else None)
-            elif key in REVIEWED:
-                r.review(key, REVIEWED[key])
             else:
-                r.violate(key, "index %s[%s] at %s is not proven in bounds" % (cname, idescr, crate.span_str(c["span"])))
+                pending.append((key, "index %s[%s] at %s is not proven in bounds" % (cname, idescr, crate.span_str(c["span"]))))
+    settle(r, pending)
     r.counts["vec_index_sites"] = n
     r.floor("Vec / slice index sites", n, 8)
     return r
